@@ -91,6 +91,9 @@ fn check_le(ctx: &mut Ctx, method: &'static str, what: String, got: f64, bound: 
     ctx.evals += 1;
     ctx.answers.insert(h64(&(method, got as u64)));
     ctx.maxi(&format!("max_permille_of_bound[{method}]"), (1000.0 * got / bound.max(1.0)).max(0.0) as u64);
+    if std::env::var("MC_SPACE_DEBUG").is_ok() && got > 0.93 * bound {
+        eprintln!("NEAR {} {} {:.0}/{:.0} = {:.3}", ctx.ty, what, got, bound, got / bound);
+    }
     if got > bound {
         ctx.violation(method, "", what, format!("<= {:.0}", bound), format!("{:.0} ({:.3} x the bound)", got, got / bound.max(1.0)));
     }
